@@ -33,16 +33,19 @@ def utf8Payload (m : Rune) (comb : List Rune) : List Nat := Utf8.encode m ++ com
 
 /-- `<entry>+lg` on a case line = the tree under test has the locked-neighbour repair (probed by the harness, see
     `lockGuardSuffix` in harness/engines/draw.go); without the suffix the pinned drawCell / LockRegion are modelled -/
-def splitVariant (name : String) : String × Bool :=
-  if name.endsWith "+lg" then (name.dropRight 3, true) else (name, false)
+def splitVariant (name : String) : String × (Bool × Bool) :=
+  if name.endsWith "+lg" then (name.dropRight 3, (true, false))
+  else if name.endsWith "+lw" then (name.dropRight 3, (true, true))   -- guard + fixes/C13-locked-wide-walk.patch
+  else (name, (false, false))
 
-def mkCfgs (env : Env) (ti : Terminfo) (tc : Bool) (fit fit0 : List (Nat × Nat)) (lg : Bool := false) : DrawCfg × RenderCfg :=
+def mkCfgs (env : Env) (ti : Terminfo) (tc : Bool) (fit fit0 : List (Nat × Nat)) (lgw : Bool × Bool := (false, false)) : DrawCfg × RenderCfg :=
+  let lg := lgw.1
   let d := derive ti
   let dc : DrawCfg := { rw := env.rw, payload := utf8Payload, hasHide := !ti.hideCursor.isEmpty,
                         hasCursorStyle := fun cs => match d.cursorStyles with | some l => cs < l.length | none => false,
                         hasCursorRGB := !d.cursorRGB.isEmpty,
                         cornerTrick := ti.autoMargin && ti.disableAutoMargin.isEmpty && !ti.insertChar.isEmpty,
-                        guardLocked := lg }
+                        guardLocked := lg, walkGuard := lgw.2 }
   let rc : RenderCfg := { ti := ti, d := d,
                           truecolor := tc && !(ti.setFgBgRGB.isEmpty && ti.setFgRGB.isEmpty && ti.setBgRGB.isEmpty),
                           fit := lookupFit fit, fit0 := lookupFit fit0 }
